@@ -1,4 +1,4 @@
-"""C11 deductive part: IndexedSet._get_real_index / _get_apparent_index (contracts/iset.py)."""
+"""C11 deductive part: IndexedSet._get_real_index / _get_apparent_index and _add_dead (contracts/iset.py)."""
 from pyvc import driver
 from contracts import iset as m
 
@@ -7,6 +7,11 @@ def run(ded, repo, tier):
     driver.run_parallel(ded, [dict(module='contracts.iset', repo=repo, q=q, tier=tier, clause_of={'*': 'index_translation'})
                               for q in m.FUNCS])
     ded.assume('dead_indices is a sorted list of disjoint, non-empty [start, stop) intervals (the representation invariant of '
-               'IndexedSet; its preservation by remove/_add_dead/_cull/_compact is NOT under contract); index >= 0')
+               'IndexedSet; _add_dead is proved to preserve it - in the stronger all-pairs form - and to make exactly the slot `start` '
+               'dead; its preservation by _cull/_compact and the callers of _add_dead is NOT under contract); index >= 0')
+    ded.trust('bisect.bisect_left on a lexicographically sorted list of [start, stop] pairs returns the insertion point')
+    ded.assume('_add_dead: start is a live slot (non-negative, inside no dead interval) and stop is omitted, as at its call sites in '
+               'remove() and pop(); the clauses labelled wf / representation lemma are auxiliary (a refuted one loses the proof and is '
+               'not reported as a violation)')
     ded.assume('prefix lengths of the dead intervals are non-negative (induction over the interval list not mechanised)')
     ded.trust('not under contract (bounded only): everything else in IndexedSet (tombstone bookkeeping, compaction, set algebra, slices)')
